@@ -33,6 +33,8 @@ structure Matches (rq : Request) (d : Datagram) : Prop where
   id : d.id = rq.id
   asked : ∀ q ∈ d.questions, ∃ r ∈ rq.questions, SameQuestion r q
   sameCase : rq.caseRand = true → ∀ q ∈ d.questions, q ∈ rq.questions
+  /-- datagrams are modelled unsigned: none of them completes a TSIG-signed query -/
+  unsignedQuery : rq.signed = false
 
 /-! ## helper lemmas -/
 
@@ -79,9 +81,9 @@ theorem examineD_accept_bool (rq : Request) (d : Datagram) :
     examineD rq d = .accept ↔
       (sourceOk rq d = true ∧ d.parses = true ∧ d.isResponse = true ∧ rq.id = d.id ∧
         d.questions.all (asked rq) = true ∧
-        (rq.caseRand = true → d.questions.all (askedCase rq) = true)) := by
+        (rq.caseRand = true → d.questions.all (askedCase rq) = true) ∧ rq.signed = false) := by
   unfold examineD
-  cases hs : sourceOk rq d <;> cases hp : d.parses <;> cases hr : d.isResponse <;>
+  cases hsg : rq.signed <;> cases hs : sourceOk rq d <;> cases hp : d.parses <;> cases hr : d.isResponse <;>
     cases hc : rq.caseRand <;> cases hq : d.questions.all (asked rq) <;>
     cases hk : d.questions.all (askedCase rq) <;>
     by_cases hid : rq.id = d.id <;> simp [hid]
@@ -91,15 +93,15 @@ theorem examineD_accept_iff (rq : Request) (d : Datagram) :
     examineD rq d = .accept ↔ Matches rq d := by
   rw [examineD_accept_bool]
   constructor
-  · rintro ⟨hs, hp, hr, hid, hq, hc⟩
+  · rintro ⟨hs, hp, hr, hid, hq, hc, hsg⟩
     simp only [sourceOk, Bool.and_eq_true, decide_eq_true_eq] at hs
-    refine ⟨hs.1, hs.2, hp, hr, hid.symm, ?_, ?_⟩
+    refine ⟨hs.1, hs.2, hp, hr, hid.symm, ?_, ?_, hsg⟩
     · intro q hqm
       exact (asked_iff rq q).1 (List.all_eq_true.1 hq q hqm)
     · intro hcr q hqm
       exact (askedCase_iff rq q).1 (List.all_eq_true.1 (hc hcr) q hqm)
   · intro m
-    refine ⟨by simp [sourceOk, m.ip, m.port], m.parses, m.response, m.id.symm, ?_, ?_⟩
+    refine ⟨by simp [sourceOk, m.ip, m.port], m.parses, m.response, m.id.symm, ?_, ?_, m.unsignedQuery⟩
     · exact List.all_eq_true.2 fun q hqm => (asked_iff rq q).2 (m.asked q hqm)
     · exact fun hcr => List.all_eq_true.2 fun q hqm => (askedCase_iff rq q).2 (m.sameCase hcr q hqm)
 
@@ -111,9 +113,11 @@ theorem examineD_fail_iff (rq : Request) (d : Datagram) :
       sourceOk rq d = true ∧
         (d.parses = false ∨ d.isResponse = false ∨
           (rq.id = d.id ∧ rq.caseRand = true ∧ d.questions.all (asked rq) = true ∧
-            d.questions.all (askedCase rq) = false)) := by
+            d.questions.all (askedCase rq) = false) ∨
+          (rq.id = d.id ∧ d.questions.all (asked rq) = true ∧
+            (rq.caseRand = true → d.questions.all (askedCase rq) = true) ∧ rq.signed = true)) := by
   unfold examineD
-  cases hs : sourceOk rq d <;> cases hp : d.parses <;> cases hr : d.isResponse <;>
+  cases hsg : rq.signed <;> cases hs : sourceOk rq d <;> cases hp : d.parses <;> cases hr : d.isResponse <;>
     cases hc : rq.caseRand <;> cases hq : d.questions.all (asked rq) <;>
     cases hk : d.questions.all (askedCase rq) <;>
     by_cases hid : rq.id = d.id <;> simp [hid]
@@ -121,33 +125,45 @@ theorem examineD_fail_iff (rq : Request) (d : Datagram) :
 theorem endsUndecodable_iff (rq : Request) (d : Datagram) :
     endsUndecodable rq d = true ↔ (examineD rq d = .fail .parse ∨ examineD rq d = .fail .notResponse) := by
   unfold endsUndecodable examineD
-  cases sourceOk rq d <;> cases d.parses <;> cases d.isResponse <;> cases rq.caseRand <;>
+  cases rq.signed <;> cases sourceOk rq d <;> cases d.parses <;> cases d.isResponse <;> cases rq.caseRand <;>
     cases d.questions.all (asked rq) <;> cases d.questions.all (askedCase rq) <;>
     by_cases hid : rq.id = d.id <;> simp [hid]
 
 theorem endsCaseMismatch_iff (rq : Request) (d : Datagram) :
     endsCaseMismatch rq d = true ↔ examineD rq d = .fail .caseMismatch := by
   unfold endsCaseMismatch examineD
-  cases sourceOk rq d <;> cases d.parses <;> cases d.isResponse <;> cases rq.caseRand <;>
+  cases rq.signed <;> cases sourceOk rq d <;> cases d.parses <;> cases d.isResponse <;> cases rq.caseRand <;>
+    cases d.questions.all (asked rq) <;> cases d.questions.all (askedCase rq) <;>
+    by_cases hid : rq.id = d.id <;> simp [hid]
+
+theorem endsUnsigned_iff (rq : Request) (d : Datagram) :
+    endsUnsigned rq d = true ↔ examineD rq d = .fail .tsig := by
+  unfold endsUnsigned examineD
+  cases rq.signed <;> cases sourceOk rq d <;> cases d.parses <;> cases d.isResponse <;> cases rq.caseRand <;>
+    cases d.questions.all (asked rq) <;> cases d.questions.all (askedCase rq) <;>
+    by_cases hid : rq.id = d.id <;> simp [hid]
+
+theorem examineD_no_io_setup (rq : Request) (d : Datagram) :
+    examineD rq d ≠ .fail .io ∧ examineD rq d ≠ .fail .setup := by
+  unfold examineD
+  cases rq.signed <;> cases sourceOk rq d <;> cases d.parses <;> cases d.isResponse <;> cases rq.caseRand <;>
     cases d.questions.all (asked rq) <;> cases d.questions.all (askedCase rq) <;>
     by_cases hid : rq.id = d.id <;> simp [hid]
 
 theorem endsInsteadOfSkipped_iff (rq : Request) (d : Datagram) :
     endsInsteadOfSkipped rq d = true ↔ ∃ w, examineD rq d = .fail w := by
   unfold endsInsteadOfSkipped
-  rw [Bool.or_eq_true, endsUndecodable_iff, endsCaseMismatch_iff]
+  rw [Bool.or_eq_true, Bool.or_eq_true, endsUndecodable_iff, endsCaseMismatch_iff, endsUnsigned_iff]
   constructor
-  · rintro ((h | h) | h) <;> exact ⟨_, h⟩
+  · rintro (((h | h) | h) | h) <;> exact ⟨_, h⟩
   · rintro ⟨w, h⟩
     cases w with
-    | io =>
-      exfalso; revert h; unfold examineD
-      cases sourceOk rq d <;> cases d.parses <;> cases d.isResponse <;> cases rq.caseRand <;>
-        cases d.questions.all (asked rq) <;> cases d.questions.all (askedCase rq) <;>
-        by_cases hid : rq.id = d.id <;> simp [hid]
-    | parse => exact .inl (.inl h)
-    | notResponse => exact .inl (.inr h)
-    | caseMismatch => exact .inr h
+    | io => exact absurd h (examineD_no_io_setup rq d).1
+    | setup => exact absurd h (examineD_no_io_setup rq d).2
+    | parse => exact .inl (.inl (.inl h))
+    | notResponse => exact .inl (.inl (.inr h))
+    | caseMismatch => exact .inl (.inr h)
+    | tsig => exact .inr h
 
 /-- the two classes are disjoint, and neither contains a matching datagram -/
 theorem endClasses_disjoint (rq : Request) (d : Datagram) :
@@ -201,6 +217,7 @@ theorem recvLoop_accept {rq : Request} {n i : Nat} {es : List Event} {j : Nat}
     refine ⟨Nat.le_refl _, by omega, ?_, by intro k hk; omega⟩
     cases e with
     | ioErr => simp [examine] at hacc
+    | setupFail => simp [examine] at hacc
     | dgram d => exact ⟨d, by simp, (examineD_accept_iff rq d).1 hacc⟩
   | case4 n i e es w hf => cases h
   | case5 n i e es w hs ih =>
@@ -246,6 +263,13 @@ theorem udp_nonmatching_not_accepted (rq : Request) (es : List Event) (j : Nat) 
   obtain ⟨_, ⟨d', hd', hm⟩, _⟩ := udp_accept_only_matching rq es j h
   rw [hd] at hd'; cases hd'; exact hn hm
 
+/-- a TSIG-signed query is never completed by an (unsigned) datagram -/
+theorem udp_signed_never_accepts_unsigned (rq : Request) (es : List Event) (j : Nat)
+    (hs : rq.signed = true) : recv rq es ≠ .accept j := by
+  intro h
+  obtain ⟨_, ⟨d, _, hm⟩, _⟩ := udp_accept_only_matching rq es j h
+  rw [hm.unsignedQuery] at hs; cases hs
+
 theorem recvLoop_take (rq : Request) (n i : Nat) (es : List Event) :
     recvLoop rq n i (es.take n) = recvLoop rq n i es := by
   fun_induction recvLoop rq n i es with
@@ -267,7 +291,7 @@ theorem recvLoop_consumed (rq : Request) (n i : Nat) (es : List Event) :
   | case1 => right; rfl
   | case2 => left; simp [RecvOutcome.consumed]
   | case3 n i e es h => left; simp only [RecvOutcome.consumed, List.length_cons]; omega
-  | case4 n i e es w h => left; simp only [RecvOutcome.consumed, List.length_cons]; omega
+  | case4 n i e es w h => left; simp only [RecvOutcome.consumed, List.length_cons]; split <;> omega
   | case5 n i e es w h ih =>
     rcases ih with ih | ih
     · left; simp only [List.length_cons]; omega
@@ -300,6 +324,11 @@ theorem udp_accepts_genuine (rq : Request) (pre post : List Event) (d : Datagram
   have h3 : MAX_EXAMINED = pre.length + ((2 - pre.length) + 1) := by simp [MAX_EXAMINED]; omega
   rw [recv, h3, recvLoop_skip_prefix rq pre _ 0 _ hskip, recvLoop]
   simp [examine, (examineD_accept_iff rq d).2 hm]
+
+/-- a transmission whose set-up fails ends in an error without taking anything from a socket -/
+theorem udp_setup_failure_takes_nothing (rq : Request) (es : List Event) :
+    recv rq (.setupFail :: es) = .fail 0 .setup ∧ (recv rq (.setupFail :: es)).consumed = 0 := by
+  constructor <;> simp [recv, recvLoop, MAX_EXAMINED, examine, RecvOutcome.consumed]
 
 /-! ## the whole query (retransmissions + overall timeout) -/
 
@@ -595,7 +624,7 @@ theorem mem_trySend {ch : Chan} {x y : Item} (h : y ∈ (ch.trySend x).queue) : 
 /-- Lemma C: routing a response with id `a.id` to the caller of the active request `a`. -/
 theorem inv_route_to {act : List Active} {cs : List Caller} (h : Inv' act cs) {a : Active}
     (ha : a ∈ act) (tag : Nat) :
-    Inv' act (updChan cs a.req (·.trySend (.resp a.id tag))) := by
+    Inv' act (updChan cs a.req (·.trySend (routed a a.id tag))) := by
   apply inv_updChan_gen h (fun ch => trySend_txClosed ch _)
   intro c hc hr id tag' hmem
   obtain ⟨c0, hc0, h1, h2, _⟩ := h.activeHasCaller a ha
@@ -603,7 +632,10 @@ theorem inv_route_to {act : List Active} {cs : List Caller} (h : Inv' act cs) {a
   subst this
   rcases mem_trySend hmem with hm | hm
   · exact h.ownId c hc id tag' hm
-  · cases hm; exact h2
+  · unfold routed at hm
+    split at hm
+    · cases hm
+    · cases hm; exact h2
 
 /-- Lemma B: fixing the deadline of one entry. -/
 theorem inv_deadline {pre rest : List Active} {a : Active} {cs : List Caller} (d : Option Nat)
@@ -793,9 +825,9 @@ theorem inv_add_error_caller {act : List Active} {cs : List Caller} {r : Req} (h
     · exact h.txOpenActive c hc htx
     · simp [errorCaller] at htx
 
-theorem inv_add_active {act : List Active} {cs : List Caller} {r : Req} {id : Id} (h : Inv' act cs)
+theorem inv_add_active {act : List Active} {cs : List Caller} {r : Req} {id : Id} (sg : Bool) (h : Inv' act cs)
     (hr : ∀ c ∈ cs, c.req ≠ r) (hid : id ∉ act.map (·.id)) :
-    Inv' (act ++ [{ id := id, req := r }]) (cs ++ [{ req := r, assigned := some id, chan := {} }]) := by
+    Inv' (act ++ [{ id := id, req := r, signed := sg }]) (cs ++ [{ req := r, assigned := some id, chan := {} }]) := by
   have hra : ∀ a ∈ act, a.req ≠ r := by
     intro a ha heq
     obtain ⟨c, hc, h1, _⟩ := h.activeHasCaller a ha
@@ -832,10 +864,10 @@ theorem inv_add_active {act : List Active} {cs : List Caller} {r : Req} {id : Id
     rcases hc with hc | rfl
     · obtain ⟨a, ha, har⟩ := h.txOpenActive c hc htx
       exact ⟨a, by simp [ha], har⟩
-    · exact ⟨{ id := id, req := r }, by simp, rfl⟩
+    · exact ⟨{ id := id, req := r, signed := sg }, by simp, rfl⟩
 
-theorem inv_send {s s' : State} {r : Req} {draws : List Id} {res : SendResult} (h : Inv s)
-    (hs : send s r draws = .ok (s', res)) : Inv s' := by
+theorem inv_send {s s' : State} {r : Req} {draws : List Id} {enc sg : Bool} {res : SendResult} (h : Inv s)
+    (hs : send s r draws enc sg = .ok (s', res)) : Inv s' := by
   unfold send at hs
   split at hs; · cases hs
   split at hs; · cases hs; exact h
@@ -848,8 +880,10 @@ theorem inv_send {s s' : State} {r : Req} {draws : List Id} {res : SendResult} (
     · rename_i id hid
       split at hs
       · cases hs; exact inv_add_error_caller h hr
-      · cases hs
-        exact inv_add_active h hr (nextId_spec hid).1
+      · split at hs
+        · cases hs; exact inv_add_error_caller h hr
+        · cases hs
+          exact inv_add_active sg h hr (nextId_spec hid).1
 
 theorem recvChan_txClosed (ch : Chan) : ch.recv.1.txClosed = ch.txClosed := by
   unfold Chan.recv; split <;> rfl
@@ -874,7 +908,7 @@ theorem inv_cancel (s : State) (r : Req) (h : Inv s) : Inv (cancel s r) := by
 
 theorem inv_step (s : State) (op : Op) (h : Inv s) : Inv (step s op) := by
   cases op with
-  | send r draws =>
+  | send r draws enc sg =>
     simp only [step]
     split
     · rename_i s' res hs; exact inv_send h hs
@@ -967,9 +1001,9 @@ theorem find_active_of_nodup {act : List Active} (hn : (act.map (·.id)).Nodup) 
 theorem route_by_id {act : List Active} {cs : List Caller} (h : Inv' act cs) {a : Active}
     (ha : a ∈ act) (tag : Nat) :
     chanOf (route act cs true true a.id tag) a.req
-        = (chanOf cs a.req).map (·.trySend (.resp a.id tag)) ∧
+        = (chanOf cs a.req).map (·.trySend (routed a a.id tag)) ∧
       ∀ r', r' ≠ a.req → chanOf (route act cs true true a.id tag) r' = chanOf cs r' := by
-  have : route act cs true true a.id tag = updChan cs a.req (·.trySend (.resp a.id tag)) := by
+  have : route act cs true true a.id tag = updChan cs a.req (·.trySend (routed a a.id tag)) := by
     simp [route, find_active_of_nodup h.idsNodup ha]
   rw [this]
   exact ⟨by simp [chanOf_updChan], fun r' hr => by simp [chanOf_updChan, hr]⟩
@@ -1210,7 +1244,7 @@ theorem closeAll_chan (as : List Active) (cs : List Caller) (hn : (as.map (·.re
 theorem step_closed (s : State) (op : Op) (hs : s.isShutdown = true) (ha : s.active = []) :
     (step s op).isShutdown = true ∧ (step s op).active = [] := by
   cases op with
-  | send r draws => simp [step, send, hs, ha]
+  | send r draws enc sg => simp [step, send, hs, ha]
   | deliver f => simp [step, hs, ha]
   | poll => simp [step, poll, ha, hs, dropCancelled]
   | recv r =>
@@ -1234,10 +1268,10 @@ theorem after_close_stable (s : State) (hs : s.isShutdown = true) (ha : s.active
 
 /-- **send_fresh_id.** The id a request goes out with was drawn among the first 100 RNG values and
 is not the id of any request in flight. -/
-theorem send_fresh_id {s s' : State} {r : Req} {draws : List Id} {id : Id}
-    (h : send s r draws = .ok (s', .sent id)) :
+theorem send_fresh_id {s s' : State} {r : Req} {draws : List Id} {enc sg : Bool} {id : Id}
+    (h : send s r draws enc sg = .ok (s', .sent id)) :
     id ∉ s.activeIds ∧ id ∈ draws.take ID_TRIES ∧
-      s'.active = s.active ++ [{ id := id, req := r }] := by
+      s'.active = s.active ++ [{ id := id, req := r, signed := sg }] := by
   unfold send at h
   split at h; · cases h
   split at h; · cases h
@@ -1247,20 +1281,34 @@ theorem send_fresh_id {s s' : State} {r : Req} {draws : List Id} {id : Id}
   · rename_i id' hid
     split at h
     · cases h
-    · cases h
-      exact ⟨(nextId_spec hid).1, (nextId_spec hid).2, rfl⟩
+    · split at h
+      · cases h
+      · cases h
+        exact ⟨(nextId_spec hid).1, (nextId_spec hid).2, rfl⟩
 
 /-- **send_exhausted_errs.** If 100 draws in a row all hit ids in flight, `send_message` returns an
 error stream and nothing is registered (no id is reused, nothing is sent). -/
-theorem send_exhausted_errs (s : State) (r : Req) (draws : List Id) (hs : s.isShutdown = false)
+theorem send_exhausted_errs (s : State) (r : Req) (draws : List Id) (enc sg : Bool) (hs : s.isShutdown = false)
     (hfresh : (s.caller? r).isSome = false) (hall : ∀ d ∈ draws.take ID_TRIES, d ∈ s.activeIds) :
-    ∃ s', send s r draws = .ok (s', .err) ∧ s'.active = s.active ∧ s'.outQ = s.outQ := by
+    ∃ s', send s r draws enc sg = .ok (s', .err) ∧ s'.active = s.active ∧ s'.outQ = s.outQ := by
   unfold send
   simp only [hs, hfresh, Bool.false_eq_true, if_false]
   split
   · exact ⟨_, rfl, rfl, rfl⟩
   · rw [nextId_none.2 hall]
     exact ⟨_, rfl, rfl, rfl⟩
+
+/-- **send_unencodable_errs.** A request that does not encode is answered with an error stream and
+leaves the multiplexer as it was: no id taken, nothing written, nothing pending. -/
+theorem send_unencodable_errs (s : State) (r : Req) (draws : List Id) (sg : Bool) (hs : s.isShutdown = false)
+    (hfresh : (s.caller? r).isSome = false) :
+    ∃ s', send s r draws false sg = .ok (s', .err) ∧ s'.active = s.active ∧ s'.outQ = s.outQ ∧
+      s'.inbox = s.inbox := by
+  unfold send
+  simp only [hs, hfresh, Bool.false_eq_true, if_false]
+  split
+  · exact ⟨_, rfl, rfl, rfl, rfl⟩
+  · split <;> exact ⟨_, rfl, rfl, rfl, rfl⟩
 
 /-! ## non-vacuity (multiplexer) -/
 
